@@ -147,8 +147,8 @@ ADD = {
     'C13': dict(technique=' + the returned pf as a function of the level list (Subset.pf) with the product theorem',
                 text=' run_shape / C13_pf_product / C13_pf_le_one: every level before the last stored p0 with a positive threshold; when the last level reached the zero threshold with k of N samples in the failure set the returned pf is p0^(m-1) k / N, hence in [0, 1]. chain_contract / C13_nested_from_sampler: the contract assumed by the nestedness theorem is derived from the component-wise sampler model of C14 iterated with the domain function of subsetSimulation (a move to a different point is kept iff g < level), so nestedness holds end to end on the two models.',
                 note=' The returned pf is compared with the model product (p0 as the exact binary fraction) at 1e-12.'),
-    'C14': dict(technique=' + detailed balance in integral form on sigma-finite state spaces (Mathlib measure theory)',
-                text=' C14c_detailed_balance: for the move part of the kernel of the plain sampler on any sigma-finite state space, with a symmetric proposal density and a target positive on the domain, the probability flow from A to B equals the flow from B to A for all sets A, B.',
+    'C14': dict(technique=' + detailed balance in integral form on sigma-finite state spaces (Mathlib measure theory) + the Lebesgue measure of the accepting draws of the rule (Proofs/C14Uniform.lean)',
+                text=' C14c_detailed_balance: for the move part of the kernel of the plain sampler on any sigma-finite state space, with a symmetric proposal density and a target positive on the domain, the probability flow from A to B equals the flow from B to A for all sets A, B. C14u_accept_probability / C14u_weight_from_rule: for a draw uniform on [0, 1) the set of draws on which the rule u f(cur) <= f(cand) accepts has Lebesgue measure min(1, f(cand)/f(cur)), so the off-diagonal kernel entries of the balance theorems are the proposal probability times the measure of the accepting draws times the domain test; the rule of the executable model on a rational draw is that inequality (C14u_accepts_iff); the draws accepting a zero-density candidate are {0}, of measure zero.',
                 note=''),
     'C17': dict(technique=' + the Welch estimate as a mathematical object (segments, mean removal, window, density scaling, averaging) with its scaling / rate-invariance / non-negativity theorems',
                 text=' C17w_scaling / C17w_scaling_area / C17w_area_fs_invariance / C17w_nonneg: the Welch estimate (averaged windowed one-sided density of mean-removed segments) scales with the square of the amplitude at every bin, keeps its area when only the sampling rate changes, and is non-negative; with one segment and a rectangular window it is the periodogram density.',
